@@ -152,6 +152,10 @@ def decKeyValue (C : DecCodec) (t : Xml) : R Atom := do
     else if valuetype = some "numeric".toList then unpackSingle C data none
     else perr
 
+/-- `namespace.strip('/')` of the CIMInstanceName / CIMClassName namespace setters -/
+def stripSlashes (s : Str) : Str :=
+  ((s.dropWhile (fun c => c = '/')).reverse.dropWhile (fun c => c = '/')).reverse
+
 /-- mirrors pywbem/_cim_obj.py: _cim_keybinding and the None check of the keybindings setter, for the
     values the parser can produce: None -> ValueError, CIMClassName -> TypeError -/
 def keyValueCheck : Atom → R Unit
@@ -292,7 +296,7 @@ def decPathAny (t : Xml) : R Path := do
         let ns ← decLocalNsPath l
         if i.name ≠ "INSTANCENAME".toList then perr
         else match (← decInstNameKids ks) with
-          | [p] => pure (p.withNs none (some ns))
+          | [p] => pure (p.withNs none (some (stripSlashes ns)))
           | _ => perr
       | _ => perr
     else if n = "INSTANCEPATH".toList then
@@ -301,7 +305,7 @@ def decPathAny (t : Xml) : R Path := do
         let (host, ns) ← decNsPath l
         if i.name ≠ "INSTANCENAME".toList then perr
         else match (← decInstNameKids ks) with
-          | [p] => pure (p.withNs (some host) (some ns))
+          | [p] => pure (p.withNs (some host) (some (stripSlashes ns)))
           | _ => perr
       | _ => perr
     else if n = "LOCALCLASSPATH".toList then
@@ -309,14 +313,14 @@ def decPathAny (t : Xml) : R Path := do
       | [l, c] => do
         let ns ← decLocalNsPath l
         let cn ← decClassName c
-        pure (.cls cn none (some ns))
+        pure (.cls cn none (some (stripSlashes ns)))
       | _ => perr
     else if n = "CLASSPATH".toList then
       match Xml.elemKids ks with
       | [l, c] => do
         let (host, ns) ← decNsPath l
         let cn ← decClassName c
-        pure (.cls cn (some host) (some ns))
+        pure (.cls cn (some host) (some (stripSlashes ns)))
       | _ => perr
     else perr
 end
